@@ -80,7 +80,7 @@ class Ctx:
         if l:
             return l[0]
         # the name is only a hint: fall back to what the function *does* (renamed / re-signed private functions)
-        role = ROLE_FALLBACK.get(suffix.split('::')[-1])
+        role = ROLE_FALLBACK.get(suffix) or ROLE_FALLBACK.get(suffix.split('::')[-1])
         if role is not None:
             try:
                 f = role(self, crate)
@@ -196,10 +196,10 @@ def _most_literals(ctx, crate, adt_suffix, pred=None):
     return ctx.pv.fn_by_key.get(max(sorted(cnt), key=lambda k: cnt[k]))
 
 
-def _qualifier_extractor(ctx, crate, module):
+def _qualifier_extractor(ctx, crate, module, exclude=None):
     """the function of `module` that appends GraphqlTypeQualifier values inside a loop (directly)"""
     for fn in ctx.prog.crates[crate].all_fns():
-        if fn.from_macro or not F.norm_path(fn.path).startswith(module):
+        if fn.from_macro or not F.norm_path(fn.path).startswith(module) or (exclude and exclude in F.norm_path(fn.path)):
             continue
         for n in fn.walk(lambda x: x['k'] == 'mcall' and x['method'] == 'push'):
             if 'GraphqlTypeQualifier' in (n['recv'].get('ty', '') + n['recv'].get('aty', '')) and any(p.get('k') in ('loop', 'for') for p, r, c in fn.ancestors(n)):
@@ -213,8 +213,40 @@ ROLE_FALLBACK = {
                                                             lambda fn, node: any(x['name'] == 'graphql_name' and x['e'].get('k') != 'path' or
                                                                                  (x['name'] == 'graphql_name' and 'None' not in x['e'].get('res', {}).get('path', '')) for x in node['fields'])),
     'from_json_type_inner': lambda ctx, crate: _qualifier_extractor(ctx, crate, 'graphql_client_codegen::schema::json_conversion'),
-    'resolve_field_type': lambda ctx, crate: _qualifier_extractor(ctx, crate, 'graphql_client_codegen::schema::resolve') or _qualifier_extractor(ctx, crate, 'graphql_client_codegen::schema::'),
+    'resolve_field_type': lambda ctx, crate: _qualifier_extractor(ctx, crate, 'graphql_client_codegen::schema::resolve') or
+    _qualifier_extractor(ctx, crate, 'graphql_client_codegen::schema::', exclude='json_conversion'),
+    # the function of a schema front end that sets the root operation types
+    'graphql_client_codegen::schema::json_conversion::convert': lambda ctx, crate: _first_fn(ctx, crate, 'graphql_client_codegen::schema::json_conversion', _assigns_root),
+    'graphql_client_codegen::schema::graphql_parser_conversion::convert': lambda ctx, crate: _first_fn(ctx, crate, 'graphql_client_codegen::schema::graphql_parser_conversion', _assigns_root),
+    # .. and the one that fills the names map
+    'graphql_client_codegen::schema::json_conversion::build_names_map': lambda ctx, crate: _first_fn(ctx, crate, 'graphql_client_codegen::schema::json_conversion', _fills_names),
+    'graphql_client_codegen::schema::graphql_parser_conversion::populate_names_map': lambda ctx, crate: _first_fn(ctx, crate, 'graphql_client_codegen::schema::graphql_parser_conversion', _fills_names),
+    # the derive's path builder: the function that reads CARGO_MANIFEST_DIR
+    'build_query_and_schema_path': lambda ctx, crate: _first_fn(ctx, crate, 'graphql_query_derive', lambda fn: any(
+        isinstance(n.get('lit'), dict) and n['lit'].get('v') == 'CARGO_MANIFEST_DIR' for n in fn.walk())),
 }
+
+
+def _first_fn(ctx, crate, module, pred):
+    for fn in ctx.prog.crates[crate].all_fns():
+        if not fn.from_macro and F.norm_path(fn.path).startswith(module) and pred(fn):
+            return fn
+    return None
+
+
+def _assigns_root(fn):
+    return any(True for _ in fn.walk(lambda x: x.get('k') == 'assign' and isinstance(x.get('l'), dict) and x['l'].get('k') == 'field' and x['l'].get('name') == 'query_type'))
+
+
+def _fills_names(fn):
+    def names_insert(x):
+        if not (x.get('k') == 'mcall' and x.get('method') == 'insert'):
+            return False
+        r = x.get('recv')
+        while isinstance(r, dict) and r.get('k') in ('ref', 'wrap', 'unary') and 'e' in r:
+            r = r['e']
+        return isinstance(r, dict) and r.get('k') == 'field' and r.get('name') == 'names'
+    return any(True for _ in fn.walk(names_insert))
 
 
 def diverges(e):
